@@ -21,6 +21,12 @@ ALLOWED_AXIOMS = {"propext", "Classical.choice", "Quot.sound"}
 FORBIDDEN = re.compile(r"sorry|admit|^\s*axiom |native_decide|bv_decide|implemented_by|unsafe |maxHeartbeats 0")
 
 
+class TieBroken(Exception):
+    """/repo itself builds, but the machinery that ties the model to its source (the probe, which
+    links /repo's crates through their public API) no longer builds against it: the
+    correspondence can no longer be checked, so the property is no longer shown to hold"""
+
+
 class HarnessFault(Exception):
     """the machinery itself failed (exit 2, never a VIOLATION)"""
 
@@ -80,7 +86,11 @@ def build_probe():
             shutil.copy(os.path.join(REPO, "Cargo.lock"), lock)
         p = run(["cargo", "build", "--offline"], cwd=os.path.join(VERIF, "probe"))
         if p.returncode != 0:
-            raise HarnessFault("building the probe against /repo failed:\n" + p.stderr[-4000:])
+            # a tree that does not build at all is not a change to be judged (harness fault);
+            # a tree that builds while the probe does not has changed the API the tie relies on
+            build_idlc("debug")
+            raise TieBroken("the probe (facts of the real pipeline through /repo's public API) does not build against "
+                            "the current source:\n" + p.stderr[-4000:])
     return PROBE_BIN
 
 
